@@ -37,6 +37,8 @@ type Variant struct {
 	InitialHeight int64
 	// UnsetPreviousBlockTime starts the chain from an htlc genesis without previous_block_time (valid)
 	UnsetPreviousBlockTime bool
+	// Relist: governance may remove the second asset from the parameters and list it again (same settings)
+	Relist bool
 }
 
 type contract struct {
@@ -63,6 +65,9 @@ type model struct {
 	minted map[string]*big.Int
 	burned map[string]*big.Int
 	win    map[string]*window
+	// delisted / relisted: assets governance removed from the parameters (and listed again)
+	delisted map[string]bool
+	relisted map[string]bool
 }
 
 func (m *model) Clone() mc.Model {
@@ -76,6 +81,18 @@ func (m *model) Clone() mc.Model {
 	for k, v := range m.win {
 		c.win[k] = &window{elapsed: v.elapsed, done: new(big.Int).Set(v.done)}
 	}
+	for k := range m.delisted {
+		if c.delisted == nil {
+			c.delisted = map[string]bool{}
+		}
+		c.delisted[k] = true
+	}
+	for k := range m.relisted {
+		if c.relisted == nil {
+			c.relisted = map[string]bool{}
+		}
+		c.relisted[k] = true
+	}
 	return c
 }
 
@@ -87,6 +104,7 @@ func (m *model) Canon() []byte {
 		fmt.Fprintf(&b, "%s:%d;", c.ID, c.State)
 	}
 	for _, k := range []string{bnb, eth} {
+		fmt.Fprintf(&b, "%v%v", m.delisted[k], m.relisted[k])
 		fmt.Fprintf(&b, "%s:%s/%s/", k, m.minted[k], m.burned[k])
 		if w := m.win[k]; w != nil {
 			fmt.Fprintf(&b, "%d/%s;", w.elapsed, w.done)
@@ -227,6 +245,13 @@ func (d *Driver) Enabled(e *mc.Env, s *mc.State) []mc.Op {
 	var ops []mc.Op
 	for _, t := range d.tmpls() {
 		ops = append(ops, mc.Op{Name: "create(" + t.name + ")", Data: opData{kind: "create", t: t}})
+	}
+	if d.V.Cross && d.V.Relist {
+		if m.delisted[eth] {
+			ops = append(ops, mc.Op{Name: "gov:relist(eth)", Data: opData{kind: "relist"}})
+		} else {
+			ops = append(ops, mc.Op{Name: "gov:delist(eth)", Data: opData{kind: "delist"}})
+		}
 	}
 	minExp := int64(0)
 	for i, c := range m.cs {
@@ -381,6 +406,27 @@ func (d *Driver) apply(e *mc.Env, s *mc.State, op mc.Op) []mc.Finding {
 		m.cs = append(m.cs, contract{ID: resp.Id, Sender: t.sender, To: t.to, Amount: t.amount, Secret: t.secret, Timestamp: ts,
 			Expiry: s.Ctx.BlockHeight() + int64(t.lock), Transfer: t.transfer, Dir: t.dir, Tmpl: t.name})
 		return fs
+	case "delist", "relist":
+		p := assetParams()
+		if od.kind == "delist" {
+			p.AssetParams = p.AssetParams[:1]
+		}
+		out := s.Deliver(e, op.Name, &htlctypes.MsgUpdateParams{Authority: mc.Authority().String(), Params: p})
+		if out.OK {
+			if m.delisted == nil {
+				m.delisted = map[string]bool{}
+			}
+			if m.relisted == nil {
+				m.relisted = map[string]bool{}
+			}
+			if od.kind == "delist" {
+				m.delisted[eth] = true
+			} else {
+				delete(m.delisted, eth)
+				m.relisted[eth] = true
+			}
+		}
+		return fs
 	case "claim":
 		c := &m.cs[od.idx]
 		before := e.Snapshot(s.Ctx, u)
@@ -508,6 +554,9 @@ func (d *Driver) check(e *mc.Env, s *mc.State) []mc.Finding {
 	}
 	if d.V.Cross {
 		for _, a := range assetParams().AssetParams {
+			if m.delisted[a.Denom] {
+				continue // not an asset of the module at the moment
+			}
 			r, err := e.HTLC.AssetSupply(s.Ctx, &htlctypes.QueryAssetSupplyRequest{Denom: a.Denom})
 			if err != nil {
 				fs = append(fs, mc.F("C04/asset-supply-missing", "%s: %v", a.Denom, err))
@@ -531,7 +580,7 @@ func (d *Driver) check(e *mc.Env, s *mc.State) []mc.Finding {
 			if tot.Cmp(a.SupplyLimit.Limit.BigInt()) > 0 {
 				fs = append(fs, mc.F("C04/total-limit-exceeded", "%s: current %s + incoming %s > limit %s", a.Denom, sup.CurrentSupply.Amount, sup.IncomingSupply.Amount, a.SupplyLimit.Limit))
 			}
-			if a.SupplyLimit.TimeLimited && m.win[a.Denom].done.Cmp(a.SupplyLimit.TimeBasedLimit.BigInt()) > 0 {
+			if a.SupplyLimit.TimeLimited && !m.relisted[a.Denom] && m.win[a.Denom].done.Cmp(a.SupplyLimit.TimeBasedLimit.BigInt()) > 0 {
 				fs = append(fs, mc.F("C04/time-based-limit-exceeded", "%s: %s completed within one limit period (%s into it), time-based limit %s", a.Denom, m.win[a.Denom].done, m.win[a.Denom].elapsed, a.SupplyLimit.TimeBasedLimit))
 			}
 		}
@@ -544,12 +593,17 @@ const rule = "state with >= 2 contracts created of which >= 1 still open; distin
 // Parts for mode C03 / C04.
 func Parts(mode string) func() []mc.Part {
 	return func() []mc.Part {
-		return []mc.Part{
+		ps := []mc.Part{
 			mc.ExplorePartC("plain", New(Variant{Name: "plain", Mode: mode}), 7, 9, false, rule,
 				&mc.ConfOpts{Stores: []string{"htlc"}, SkipDenoms: map[string]bool{"stake": true}, MaxPaths: 60}),
 			mc.ExplorePart("cross-chain", New(Variant{Name: "cross-chain", Mode: mode, Cross: true}), 6, 8, false, rule),
 			// heights are the keys of the expiry queue: this chain starts at 204, so contracts expire at 254..257
 			mc.ExplorePart("plain-at-height-204", New(Variant{Name: "plain-at-height-204", Mode: mode, InitialHeight: 204}), 6, 8, false, rule),
 		}
+		if mode == "C04" {
+			// governance removes an asset from the parameters and lists it again: its supply records must survive
+			ps = append(ps, mc.ExplorePart("cross-chain-relisting", New(Variant{Name: "cross-chain-relisting", Mode: mode, Cross: true, Relist: true}), 5, 6, false, rule))
+		}
+		return ps
 	}
 }
